@@ -7,6 +7,8 @@ require (
 	github.com/ontio/ontology-crypto v1.2.1
 )
 
+require github.com/ontio/wagon v0.4.2 // indirect
+
 require (
 	github.com/JohnCGriffin/overflow v0.0.0-20170615021017-4d914c927216 // indirect
 	github.com/VictoriaMetrics/fastcache v1.5.7 // indirect
